@@ -40,9 +40,26 @@ def documented(doc):
     return not (len(doc) == 1 and doc[0]["w"] == "")
 
 
+def split_module(page):
+    """(module entry or None, the other entries): entry numbering (names n<j>, unique doc words) starts after it"""
+    if page and page[0]["k"] == "module":
+        return page[0], page[1:]
+    return None, page
+
+
+def member_lines(m, cname, j, cmd="cpp_member"):
+    return (doc_block(m["doc"], "  ", j) if documented(m["doc"]) else []) + \
+        ["  %s(%s)" % (cmd, " ".join([m["name"], cname] + list(m["ptypes"]))),
+         "  %s(\"${%s}\" %s)" % ("macro" if m["ismacro"] else "function", m["name"], " ".join(["self"] + list(m["params"]))),
+         "  end%s()" % ("macro" if m["ismacro"] else "function")]
+
+
 def source_of(page):
     out = []
-    pending_close = []     # (entries still to nest, closing line)
+    pending_close = []     # (entries still to nest, closing lines)
+    mod, page = split_module(page)
+    if mod is not None:
+        out += ["#[[[ @module"] + doc_block(mod["doc"], "", 0)[1:]
     for j, e in enumerate(page, 1):
         name = nm(e["name"], j)
         d = doc_block(e["doc"], "", j) if documented(e["doc"]) else []
@@ -70,22 +87,24 @@ def source_of(page):
                     ["  cpp_constructor(%s)" % " ".join([m["name"], name] + list(m["ptypes"])),
                      "  %s(\"${%s}\" %s)" % ("macro" if m["ismacro"] else "function", m["name"], " ".join(["self"] + list(m["params"]))),
                      "  end%s()" % ("macro" if m["ismacro"] else "function")]
-            for m in e["members"]:
-                out += (doc_block(m["doc"], "  ", j) if documented(m["doc"]) else []) + \
-                    ["  cpp_member(%s)" % " ".join([m["name"], name] + list(m["ptypes"])),
-                     "  %s(\"${%s}\" %s)" % ("macro" if m["ismacro"] else "function", m["name"], " ".join(["self"] + list(m["params"]))),
-                     "  end%s()" % ("macro" if m["ismacro"] else "function")]
+            nlate = e.get("nlate", 0) if e["inner"] else 0
+            early = e["members"][:len(e["members"]) - nlate]
+            late = []
+            for m in e["members"][len(e["members"]) - nlate:]:
+                late += member_lines(m, name, j)
+            for m in early:
+                out += member_lines(m, name, j)
             for a in e["attrs"]:
                 out += (doc_block(a["doc"], "  ", j) if documented(a["doc"]) else []) + \
                     ["  cpp_attr(%s)" % " ".join([name, a["name"]] + ([a["default"]] if a["hasdef"] else []))]
             if e["inner"]:
-                pending_close.append([len(e["inner"]) + 1, "cpp_end_class()"])   # the next entries are its inner classes
+                pending_close.append([len(e["inner"]) + 1, late + ["cpp_end_class()"]])   # the next entries are its inner classes
             else:
                 out += ["cpp_end_class()"]
         for pc in pending_close:
             pc[0] -= 1
         while pending_close and pending_close[-1][0] == 0:
-            out.append(pending_close.pop()[1])
+            out += pending_close.pop()[1]
     return "\n".join(out) + "\n"
 
 
@@ -208,7 +227,8 @@ def docutils_view(text):
 
 
 def expected_structure(page):
-    out = [("module", "t")]
+    mod, page = split_module(page)
+    out = [("module", "t", [uniq(l["w"], 0) for l in (mod["doc"] if mod else []) if l["w"] and not l["w"].startswith(("..", ":", "*")) and not l["w"].endswith("::")])]
     for j, e in enumerate(page, 1):
         k = e["k"]
         name = nm(e["name"], j)
@@ -235,6 +255,7 @@ def one(beh, n):
     src = source_of(page)
     status, text, _, err = agg.run_real(src, agg.make_settings(), title="TITLE", module="MODNAME")
     case = {"source": src, "features": {"kinds": [e["k"] for e in page]}}
+    page_all = page
     if status != "ok":
         return case, "page", status + " " + text, "the pipeline raised", None
     want = render_model(beh)
@@ -251,6 +272,9 @@ def one(beh, n):
     exp = expected_structure(page)
     if len(entries) != len(exp) or entries[0]["dir"] != "module":
         return case, [x[:2] for x in exp], [(e["dir"], e["arg"]) for e in entries], "top-level directives are not module + one per entry", drift
+    for w in exp[0][2]:
+        if w not in entries[0]["text"]:
+            return case, w, entries[0]["text"][:200], "the module's documentation text is not nested in the module directive", drift
     for e, x in zip(entries[1:], exp[1:]):
         dirname, name, words, kids, kidwords = x
         if e["dir"] != dirname or not e["arg"].startswith(name):
